@@ -173,6 +173,25 @@ CLAIMED = {
         "matching pairs of either direction flag, 0-2 splices; equality of definitions, coordinates and data across the file round trip.",
    ref="5/C17", note=TB + "PyYAML and netCDF4 are runtime libraries the model cannot exhibit; yaml.dump sorts dictionary keys, so definitions are compared as "
         "Python dictionaries (key order carries no information, C18).", technique="Coq proof of the dataflow under explicit round-trip hypotheses + real serialiser/file round trips"),
+ "C11": dict(
+   text="Proof: stacking puts value (item, location, time) of the result at entry (location, item) of the time-th file, for any number of files/points/items "
+        "(T41); for ANY order of the directory listing the time axis is the same files ordered by the reader's sort key, chronological whenever the key is "
+        "monotone in recorded time (T43); a key that ties is refuted (finding F16 on Halo/Sentinel names, repaired); forward cut-out and flipped backward channel "
+        "read raw indices start+k and stop-k whose sum is constant - the sample recorded at L-x (T42); a file set with differing point counts is refused (T44). "
+        "Conformance: file sets written from the bundled vendor templates with per-cell tagged values (Silixa xml through the stacking model inside Coq; "
+        "Sensortran binary; Sensornet .ddf with Oryx and Sentinel templates/names), directory listing reversed, probe series alignment, a file with a different "
+        "point count.",
+   ref="5/C11", note=TB + "XML / .ddf / binary PARSING is modelled by the harness' writer (vlib/gen_files.py), not verified; AP Sensing files are not synthesised.",
+   technique="Coq proof of placement/sorting/mirroring over list models + tagged-file conformance"),
+ "C12": dict(
+   text="Proof over integer instants: single ended timestart <= time <= timeend, interval = acquisition time, time = midpoint to 1 s; double ended interval = "
+        "forward + backward, time = end of the forward measurement (T45); arithmetic on wall-clock readings followed by localisation is right only when the "
+        "zone offset does not change over the interval (PARTIAL) and REFUTED across a DST transition (finding F8b, repaired: arithmetic on instants). "
+        "Conformance: Silixa (stamps with offset), Sensortran (epoch seconds) and Sensornet (naive stamps in timezone_input_files incl. DST zones) file sets with "
+        "stamps 1990-2037 and acquisition times 1-600 s, each read in a fresh process under four host TZ values and two output zones; a measurement spanning the "
+        "spring-forward gap (findings F8a Sensortran host-local conversion, F8b - both repaired).",
+   ref="5/C12", note=TB + "pandas / zoneinfo zone tables are runtime data; host TZ is varied through the environment of a fresh process (vlib/tz_worker.py).",
+   technique="Coq proof of the interval arithmetic on instants + subprocess conformance across host time zones"),
 }
 NA = {}
 ALL = [f"C{i:02d}" for i in range(1, 21)]
